@@ -1,13 +1,301 @@
 package main
 
-// Replay harness (DESIGN §2.10). Generators are added per obligation kind.
+// Replay harness (DESIGN §2.10): a refuted obligation's model is turned into a Go test
+// that is injected into the real package with `go test -overlay` (nothing is written
+// under /repo) and checks the property's own statement on the real code. A failing test
+// is a concrete violation; anything else is reported as no-failing-input-found.
+
+import (
+	"bytes"
+	"context"
+	"encoding/json"
+	"fmt"
+	"go/types"
+	"os"
+	"os/exec"
+	"path/filepath"
+	"sort"
+	"strings"
+	"time"
+)
 
 type Replayer struct {
 	W     *World
 	Verif string
 }
 
+type replayHandler func(rp *Replayer, o *Obligation) (pkgDir, testSrc string, ok bool)
+
+var replayHandlers = map[string]replayHandler{}
+
 // Replay tries to turn a refuted obligation into a concrete failing run of the real code.
 func (rp *Replayer) Replay(o *Obligation) (string, bool) {
+	if o.Status != "refuted" || o.Unit == nil {
+		return "", false
+	}
+	g := group(o.Name)
+	var h replayHandler
+	for pat, hh := range replayHandlers {
+		if strings.HasPrefix(g, pat) {
+			h = hh
+			break
+		}
+	}
+	if h == nil {
+		return "", false
+	}
+	pkgDir, src, ok := h(rp, o)
+	if !ok {
+		return writeReplayFile(rp.Verif, o, src, "model could not be concretised into inputs of the real function"), false
+	}
+	out, failed, err := rp.runOverlayTest(pkgDir, src)
+	outcome := "replay test PASSED on the real code: the model does not reproduce (spurious or not concretisable)"
+	if err != nil {
+		outcome = "replay could not be run: " + err.Error()
+	} else if failed {
+		outcome = "replay test FAILED on the real code: concrete violation\n" + out
+	}
+	p := writeReplayFile(rp.Verif, o, src, outcome)
+	return p, failed && err == nil
+}
+
+// runOverlayTest injects src as an in-package test file and runs it.
+func (rp *Replayer) runOverlayTest(pkgDir, src string) (string, bool, error) {
+	tmp, err := os.MkdirTemp("", "govc-replay-")
+	if err != nil {
+		return "", false, err
+	}
+	defer os.RemoveAll(tmp)
+	testFile := filepath.Join(tmp, "zz_govc_replay_test.go")
+	if err := os.WriteFile(testFile, []byte(src), 0o644); err != nil {
+		return "", false, err
+	}
+	ov := map[string]any{"Replace": map[string]string{filepath.Join(pkgDir, "zz_govc_replay_test.go"): testFile}}
+	b, _ := json.Marshal(ov)
+	ovFile := filepath.Join(tmp, "overlay.json")
+	os.WriteFile(ovFile, b, 0o644)
+	ctx, cancel := context.WithTimeout(context.Background(), 120*time.Second)
+	defer cancel()
+	cmd := exec.CommandContext(ctx, "bash", "-c", fmt.Sprintf("ulimit -v 8000000; cd %q && go test -overlay %q -vet=off -count=1 -timeout 60s -run 'TestGovcReplay' .", pkgDir, ovFile))
+	cmd.Env = append(os.Environ(), "GOFLAGS=-mod=mod", "GOPROXY=off", "GOSUMDB=off", "GOTOOLCHAIN=local")
+	var out bytes.Buffer
+	cmd.Stdout = &out
+	cmd.Stderr = &out
+	runErr := cmd.Run()
+	txt := out.String()
+	if len(txt) > 4000 {
+		txt = txt[:4000]
+	}
+	if runErr == nil {
+		return txt, false, nil
+	}
+	if strings.Contains(txt, "--- FAIL") || strings.Contains(txt, "panic:") {
+		return txt, true, nil
+	}
+	return txt, false, fmt.Errorf("go test did not run: %s", clipText(txt))
+}
+
+// Eval asks the solver for the values of additional terms in the obligation's model.
+func (o *Obligation) Eval(terms []string) map[string]string {
+	res := map[string]string{}
+	if len(terms) == 0 {
+		return res
+	}
+	u := o.Unit
+	var sb strings.Builder
+	u.D.Print(&sb)
+	for _, l := range u.script[:o.Pos] {
+		sb.WriteString(l)
+		sb.WriteByte('\n')
+	}
+	if o.Cover {
+		sb.WriteString("(assert " + and(o.Guard, o.Goal) + ")\n")
+	} else {
+		sb.WriteString("(assert (not " + implies(o.Guard, o.Goal) + "))\n")
+	}
+	sb.WriteString("(check-sat)\n(get-value (" + strings.Join(terms, " ") + "))\n")
+	tmp, _ := os.CreateTemp("", "govc-eval-*.smt2")
+	tmp.WriteString(sb.String())
+	tmp.Close()
+	defer os.Remove(tmp.Name())
+	order := []string{"z3-new", "z3"}
+	if o.Solver == "z3" {
+		order = []string{"z3", "z3-new"}
+	}
+	for _, s := range order {
+		ctx, cancel := context.WithTimeout(context.Background(), 20*time.Second)
+		outb, _ := exec.CommandContext(ctx, s, "-smt2", "-T:15", tmp.Name()).CombinedOutput()
+		cancel()
+		txt := string(outb)
+		if !strings.HasPrefix(strings.TrimSpace(txt), "sat") {
+			continue
+		}
+		rest := strings.TrimSpace(strings.TrimPrefix(strings.TrimSpace(txt), "sat"))
+		sx, _ := parseSexp(rest)
+		if sx == nil {
+			continue
+		}
+		for i, pair := range sx.list {
+			if len(pair.list) == 2 && i < len(terms) {
+				res[terms[i]] = pair.list[1].String()
+			}
+		}
+		return res
+	}
+	return res
+}
+
+// ---------- tiny s-expression reader ----------
+
+type sexp struct {
+	atom string
+	list []*sexp
+	isList bool
+}
+
+func (s *sexp) String() string {
+	if !s.isList {
+		return s.atom
+	}
+	var ps []string
+	for _, x := range s.list {
+		ps = append(ps, x.String())
+	}
+	return "(" + strings.Join(ps, " ") + ")"
+}
+
+func parseSexp(in string) (*sexp, string) {
+	in = strings.TrimLeft(in, " \t\r\n")
+	if in == "" {
+		return nil, ""
+	}
+	if in[0] == '(' {
+		s := &sexp{isList: true}
+		rest := in[1:]
+		for {
+			rest = strings.TrimLeft(rest, " \t\r\n")
+			if rest == "" {
+				return s, ""
+			}
+			if rest[0] == ')' {
+				return s, rest[1:]
+			}
+			var x *sexp
+			x, rest = parseSexp(rest)
+			if x == nil {
+				return s, rest
+			}
+			s.list = append(s.list, x)
+		}
+	}
+	if in[0] == '|' {
+		j := strings.IndexByte(in[1:], '|')
+		if j < 0 {
+			return &sexp{atom: in}, ""
+		}
+		return &sexp{atom: in[:j+2]}, in[j+2:]
+	}
+	if in[0] == '"' {
+		j := strings.IndexByte(in[1:], '"')
+		if j < 0 {
+			return &sexp{atom: in}, ""
+		}
+		return &sexp{atom: in[:j+2]}, in[j+2:]
+	}
+	j := strings.IndexAny(in, " \t\r\n()")
+	if j < 0 {
+		return &sexp{atom: in}, ""
+	}
+	return &sexp{atom: in[:j]}, in[j:]
+}
+
+// smtInt converts an SMT integer value (possibly "(- n)") to a decimal string.
+func smtInt(v string) (string, bool) {
+	v = strings.TrimSpace(v)
+	if strings.HasPrefix(v, "(- ") && strings.HasSuffix(v, ")") {
+		return "-" + strings.TrimSpace(v[3:len(v)-1]), true
+	}
+	if v == "" {
+		return "", false
+	}
+	for _, c := range v {
+		if c < '0' || c > '9' {
+			return "", false
+		}
+	}
+	return v, true
+}
+
+// concretiseStr finds a Go string for an abstract Str term: a literal it equals, or a
+// literal that one of the given spec functions maps it to (e.g. trim(x) == "RFC6960").
+func (o *Obligation) concretiseStr(term string, via ...string) (string, bool) {
+	d := o.Unit.D
+	var qs []string
+	var lits []string
+	for _, l := range d.strList {
+		lits = append(lits, l)
+	}
+	sort.Strings(lits)
+	for _, l := range lits {
+		qs = append(qs, eq(term, d.strLits[l]))
+	}
+	qs = append(qs, eq(term, "gs.empty"))
+	for _, f := range via {
+		for _, l := range lits {
+			qs = append(qs, eq(app(f, term), d.strLits[l]))
+		}
+	}
+	vals := o.Eval(qs)
+	for i, l := range lits {
+		if vals[qs[i]] == "true" {
+			return l, true
+		}
+	}
+	if vals[qs[len(lits)]] == "true" {
+		return "", true
+	}
+	k := len(lits) + 1
+	for range via {
+		for _, l := range lits {
+			if vals[qs[k]] == "true" {
+				return l, true
+			}
+			k++
+		}
+	}
 	return "", false
+}
+
+// paramTerm returns the SMT constant of a parameter of the function under contract.
+func (o *Obligation) paramTerm(name string) string {
+	for _, t := range o.Unit.modelTerms {
+		if strings.HasPrefix(strings.Trim(t, "|"), "param."+name+"!") {
+			return t
+		}
+	}
+	return ""
+}
+
+func (rp *Replayer) pkgDirOf(path string) string {
+	rel := strings.TrimPrefix(path, rp.W.ModPath)
+	return filepath.Join(rp.W.RepoDir, rel)
+}
+
+// constsOfType lists the constants of a named type (name, value expression).
+func (rp *Replayer) constsOfType(pkgPath, typeName string) []string {
+	p := rp.W.pkgByPath(pkgPath)
+	if p == nil {
+		return nil
+	}
+	tn, ok := p.Scope().Lookup(typeName).(*types.TypeName)
+	if !ok {
+		return nil
+	}
+	var out []string
+	for _, n := range p.Scope().Names() {
+		if c, ok := p.Scope().Lookup(n).(*types.Const); ok && types.Identical(c.Type(), tn.Type()) {
+			out = append(out, n)
+		}
+	}
+	return out
 }
